@@ -129,6 +129,8 @@ static int transition(const uint16_t *hist, int d, int opi, char *ckey, int verb
     for (int i = 0; i < d; i++) { snprintf(after, sizeof after, "step %d (op %d)", i, hist[i]); apply(l, &m, &OPS[hist[i]], verbose, after); if (verbose) observe(l, &m, after); }
     vc_asan_check();   /* reports raised by the history prefix belong to the transitions that ended in those ops */
     snprintf(after, sizeof after, "op %d", opi);
+    for (int i = 0; i < m.n; i++) { size_t sz = 0; void *d = l->getat(l, i, &sz, true); if (d) sm_hold(d, EL[m.e[i]].b, EL[m.e[i]].n, "qlist_getat(newmem) taken before the operation"); }
+    if (m.n) { size_t sz = 0; void *a = l->toarray(l, &sz); if (a) sm_hold(a, a, sz, "qlist_toarray taken before the operation"); }
     if (apply(l, &m, &OPS[opi], 1, after) == 1) { sm_release_held(); l->free(l); return 1; }
     canon(l, ckey, after);
     /* the canonical key must equal what the model predicts: a refused call changed nothing, an accepted one exactly one position */
